@@ -5,7 +5,8 @@ set -u
 sd=$1; shift
 wt=/tmp/wt/eval_$$
 git -C /repo worktree add -q --detach $wt HEAD || exit 2
-trap 'git -C /repo worktree remove --force '$wt' 2>/dev/null; git -C /repo worktree prune' EXIT
+snap=$(pwd)
+trap 'git -C /repo worktree remove --force '$wt' 2>/dev/null; git -C /repo worktree prune; case "$snap" in /root/.vp/runs/*) rm -rf "$snap/.build" "$snap/.cache";; esac' EXIT
 git -C $wt apply $sd/patch.diff || { echo "$sd PATCH-FAILED"; exit 2; }
 export VERIF_REPO=$wt VERIF_RESULTS=/verif/.cache/results
 for pid in "$@"; do
